@@ -1,10 +1,11 @@
 #!/bin/sh
 # tools/transtest.sh <patch.diff>...: apply each patch to a scratch worktree of /repo (never /repo itself), run the
 # translators (gen_model.py, gen_leak.py, lockshape.py via gen_model) against it and report which generated facts change
-# or can no longer be extracted.  A cheap first test of a rewrite's effect on the static tie; no cargo, no lake.
-W=/tmp/ht
-[ -d $W/repo ] || git -C /repo worktree add -q --detach $W/repo HEAD
-rm -rf $W/v; mkdir -p $W/v/lean/MdkVerif; cp -r /verif/tools $W/v/tools; cp -r /verif/vlib $W/v/vlib 2>/dev/null
+# or can no longer be extracted (tools/transcheck.py does the same over directories of patches, fact by fact, against
+# the original translators).  A cheap first test of a rewrite's effect on the static tie; no cargo, no lake.
+W=${TRANSTEST_WORK:-${TMPDIR:-/tmp}/transtest}
+mkdir -p $W; [ -d $W/repo ] || git -C /repo worktree add -q --detach $W/repo HEAD
+rm -rf $W/v; mkdir -p $W/v/lean/MdkVerif; V=$(cd "$(dirname "$0")/.." && pwd); cp -r $V/tools $W/v/tools; cp -r $V/vlib $W/v/vlib 2>/dev/null
 git -C $W/repo checkout -q -- . ; git -C $W/repo clean -fdq
 VERIF_REPO=$W/repo python3 $W/v/tools/gen_model.py > $W/base.out 2>&1
 VERIF_REPO=$W/repo python3 $W/v/tools/gen_leak.py >> $W/base.out 2>&1
